@@ -185,99 +185,126 @@ Definition load_native (st : rstate) (name : zs) : rstate * res :=
     end
   end.
 
-(* one step of file evaluation needs require itself: everything below is one fuel-indexed mutual definition *)
-Fixpoint require_ (fuel : nat) (st : rstate) (curdir : path) (req : zs) {struct fuel} : rstate * res :=
-  match fuel with
-  | O => (st, RFuel)
-  | S f =>
-    let run_body := fix run_body (st : rstate) (m : nat) (file : zs) (prog : list instr) {struct prog} : rstate * res :=
-      match prog with
-      | [] => (st, ROk m)
-      | IBump :: rest => run_body (with_store st (store st) (bump (counters st) file)) m file rest
-      | ISet k v :: rest =>
-        run_body (with_store st (upd_nth (store st) m (fun r => {| m_owner := m_owner r; m_exports := set_export (m_exports r) k v |})) (counters st)) m file rest
-      | IReq rq catch :: rest =>
-        let '(st1, r) := require_ f st (pdir (parse file)) rq in
-        let st2 := log_event st1 file rq (outcome_of st1 r) in
-        match r with
-        | ROk _ => run_body st2 m file rest
-        | RFuel => (st2, RFuel)
-        | _ => if catch then run_body st2 m file rest
-               else (st2, match r with RNone => RErr 1 | x => x end)
-        end
-      | IThrow t :: _ => (st, RThrown t)
-      end in
-    (* loadModule(path) *)
-    let load_module := fun (st : rstate) (p : path) =>
-      let ps := render p in
-      match cache_get (files_cache st) ps with
-      | Some m => (st, ROk m)
+(* ---- evaluation, written with open recursion: rq is "require" for nested calls ---- *)
+Section Open.
+Variable rq : rstate -> path -> zs -> rstate * res.
+
+Definition set_exp (st : rstate) (m k v : nat) : rstate :=
+  with_store st (upd_nth (store st) m (fun r => {| m_owner := m_owner r; m_exports := set_export (m_exports r) k v |})) (counters st).
+
+Definition bump_counter (st : rstate) (file : zs) : rstate := with_store st (store st) (bump (counters st) file).
+
+(* the body of a module: a nested require that fails un-caught ends the evaluation with that error *)
+Fixpoint run_body (st : rstate) (m : nat) (file : zs) (prog : list instr) : rstate * res :=
+  match prog with
+  | [] => (st, ROk m)
+  | IBump :: rest => run_body (bump_counter st file) m file rest
+  | ISet k v :: rest => run_body (set_exp st m k v) m file rest
+  | IReq r catch :: rest =>
+    let '(st1, x) := rq st (pdir (parse file)) r in
+    let st2 := log_event st1 file r (outcome_of st1 x) in
+    match x with
+    | ROk _ => run_body st2 m file rest
+    | RFuel => (st2, RFuel)
+    | _ => if catch then run_body st2 m file rest else (st2, match x with RNone => RErr 1 | y => y end)
+    end
+  | IThrow t :: _ => (st, RThrown t)
+  end.
+
+(* forget a failed module under every name *)
+Definition forget (st : rstate) (m : nat) (ps : zs) : rstate :=
+  with_node (with_files st (cache_del (cache_del_val (files_cache st) m) ps)) (cache_del_val (node_cache st) m).
+
+(* loadModule(path) *)
+Definition load_module (st : rstate) (p : path) : rstate * res :=
+  let ps := render p in
+  match cache_get (files_cache st) ps with
+  | Some m => (st, ROk m)
+  | None =>
+    let '(st1, m) := new_module st (OFile ps) in
+    let st2 := with_files st1 (cache_set (files_cache st1) ps m) in
+    (* getCompiledSource: fetched once per Registry *)
+    let was_compiled := mem_zs ps (compiled st2) in
+    let st3 := if was_compiled then st2 else log_load st2 ps in
+    match fs_get fs ps with
+    | None => (forget st3 m ps, RNone)
+    | Some FErr => (forget st3 m ps, RErr 2)
+    | Some (FJs prog) =>
+      let st4 := if was_compiled then st3 else add_compiled st3 ps in
+      let '(st5, r) := run_body st4 m ps prog in
+      match r with ROk _ => (st5, ROk m) | _ => (forget st5 m ps, r) end
+    | Some (FJson true v) =>
+      let st4 := if was_compiled then st3 else add_compiled st3 ps in
+      (set_exp st4 m O v, ROk m)
+    | Some (FJson false _) =>
+      let st4 := if was_compiled then st3 else add_compiled st3 ps in
+      (forget st4 m ps, RErr 4)
+    | Some (FPkg _) | Some FRaw =>
+      let st4 := if was_compiled then st3 else add_compiled st3 ps in
+      (st4, ROk m)
+    end
+  end.
+
+Fixpoint try_cands (st : rstate) (cs : list cand) : rstate * res :=
+  match cs with
+  | [] => (st, RNone)
+  | CPkg pk :: rest => try_cands (log_load st pk) rest
+  | CMod p :: rest => match load_module st p with
+                      | (st1, RNone) => try_cands st1 rest
+                      | other => other
+                      end
+  end.
+
+(* resolve(modpath) *)
+Definition resolve (st : rstate) (curdir : path) (req : zs) : rstate * res :=
+  let start := if is_abs req then None else Some curdir in
+  let p := pjoin start req in
+  let ps := render p in
+  if is_file_or_dir_path req then
+    match cache_get (files_cache st) ps with
+    | Some m => (st, ROk m)
+    | None =>
+      let '(st1, r) := try_cands st (cands_file_or_dir p) in
+      match r with
+      | ROk m =>
+        (* r.modules[p] = module. The code writes unconditionally; the model keeps an entry that nested requires may have
+           written for the same path meanwhile. The candidates are a function of the (static) tree, so that entry is the
+           same module (argued in DESIGN.md, observed by the correspondence run, not proved). *)
+        (match cache_get (files_cache st1) ps with
+         | Some m' => if Nat.eqb m' m then with_files st1 (cache_set (files_cache st1) ps m) else st1
+         | None => with_files st1 (cache_set (files_cache st1) ps m)
+         end, ROk m)
+      | other => (st1, other)
+      end
+    end
+  else
+    let '(st0, rn) := load_native st req in
+    match rn with
+    | ROk m => (st0, ROk m)
+    | RNone =>
+      let nk := render curdir ++ 0 :: req in      (* key: start + "\x00" + modpath *)
+      match cache_get (node_cache st0) nk with
+      | Some m => (st0, ROk m)
       | None =>
-        let '(st1, m) := new_module st (OFile ps) in
-        let st2 := with_files st1 (cache_set (files_cache st1) ps m) in
-        let fail := fun (st : rstate) (r : res) =>
-          (with_node (with_files st (cache_del (cache_del_val (files_cache st) m) ps)) (cache_del_val (node_cache st) m), r) in
-        (* getCompiledSource: fetched once per Registry *)
-        let fetched := if mem_zs ps (compiled st2) then (st2, fs_get fs ps, true) else (log_load st2 ps, fs_get fs ps, false) in
-        let '(st3, ent, was_compiled) := fetched in
-        match ent with
-        | None => fail st3 RNone
-        | Some FErr => fail st3 (RErr 2)
-        | Some (FJs prog) =>
-          let st4 := if was_compiled then st3 else add_compiled st3 ps in
-          let '(st5, r) := run_body st4 m ps prog in
-          match r with ROk _ => (st5, ROk m) | _ => fail st5 r end
-        | Some (FJson true v) =>
-          let st4 := if was_compiled then st3 else add_compiled st3 ps in
-          (with_store st4 (upd_nth (store st4) m (fun r => {| m_owner := m_owner r; m_exports := [(O, v)] |})) (counters st4), ROk m)
-        | Some (FJson false _) =>
-          let st4 := if was_compiled then st3 else add_compiled st3 ps in
-          fail st4 (RErr 4)
-        | Some (FPkg _) | Some FRaw =>
-          (* some other text: these cases never select it as a module (generators keep such names apart) *)
-          let st4 := if was_compiled then st3 else add_compiled st3 ps in
-          (st4, ROk m)
-        end
-      end in
-    let try_cands := fix try_cands (st : rstate) (cs : list cand) {struct cs} : rstate * res :=
-      match cs with
-      | [] => (st, RNone)
-      | CPkg pk :: rest => try_cands (log_load st pk) rest
-      | CMod p :: rest => match load_module st p with
-                          | (st1, RNone) => try_cands st1 rest
-                          | other => other
-                          end
-      end in
-    (* resolve *)
-    let start := if is_abs req then None else Some curdir in
-    let p := pjoin start req in
-    let ps := render p in
-    if is_file_or_dir_path req then
-      match cache_get (files_cache st) ps with
-      | Some m => (st, ROk m)
-      | None =>
-        let '(st1, r) := try_cands st (cands_file_or_dir p) in
+        let '(st1, r) := try_cands st0 (cands_node curdir req) in
         match r with
-        | ROk m => (with_files st1 (cache_set (files_cache st1) ps m), ROk m)
+        | ROk m =>
+          (match cache_get (node_cache st1) nk with
+           | Some m' => if Nat.eqb m' m then with_node st1 (cache_set (node_cache st1) nk m) else st1
+           | None => with_node st1 (cache_set (node_cache st1) nk m)
+           end, ROk m)
         | other => (st1, other)
         end
       end
-    else
-      let '(st0, rn) := load_native st req in
-      match rn with
-      | ROk m => (st0, ROk m)
-      | RNone =>
-        match cache_get (node_cache st0) ps with
-        | Some m => (st0, ROk m)
-        | None =>
-          let '(st1, r) := try_cands st0 (cands_node curdir req) in
-          match r with
-          | ROk m => (with_node st1 (cache_set (node_cache st1) ps m), ROk m)
-          | other => (st1, other)
-          end
-        end
-      | other => (st0, other)
-      end
+    | other => (st0, other)
+    end.
+
+End Open.
+
+Fixpoint require_ (fuel : nat) (st : rstate) (curdir : path) (req : zs) : rstate * res :=
+  match fuel with
+  | O => (st, RFuel)
+  | S f => resolve (require_ f) st curdir req
   end.
 
 (* a top-level call: from a script at a directory, or from Go (directory ".") *)
